@@ -4,7 +4,7 @@
    leaves behind -- after success and after an injected failure -- is decided by the whole-IR validator of harness/c05.py. *)
 From Coq Require Import ZArith List Bool Arith.
 From GR Require Import Base.Result Adt.RefCache Adt.RefCacheProofs Adt.RetCache Adt.RetCacheProofs
-     IR.State IR.Modify IR.Edit IR.BytesProofs IR.Closed IR.Flow IR.CfgClosed IR.CfgClosedInsert.
+     IR.State IR.Modify IR.Edit IR.BytesProofs IR.Closed IR.Flow IR.CfgClosed IR.CfgClosedInsert IR.CfgClosedDelete.
 Import ListNotations.
 Open Scope Z_scope.
 
@@ -165,3 +165,18 @@ Proof.
   - intros e e' [<-|[<-|[]]] [<-|[<-|[]]] Ht Hp Hq; cbn in *; try reflexivity; try discriminate.
   - vm_compute. do 3 eexists. reflexivity.
 Qed.
+
+(* ... and the deletion of a part of a code block: split at the offset, split off the deleted range, remove the middle block, edit
+   the bytes.  The state delete() hands to _cleanup_modified_blocks has a closed CFG, given the two facts about the middle block
+   that the model's order lists and edge sets do not yield by themselves yet (its successor in the order list is another live
+   block; it does not both call and return). *)
+Theorem C05_a_partial_deletion_reaches_the_clean_up_with_a_closed_cfg :
+  forall s b offset length end1 ft1 s1 end2 ft2 s2 r s3 bi,
+    Closed s -> live s (NB b) -> is_code s b = true ->
+    split_block s b offset = Ok (end1, ft1, s1) ->
+    split_block s1 end1 length = Ok (end2, ft2, s2) ->
+    remove_block s2 end1 false = Ok (r, s3) ->
+    (forall n, snd (adjacent_blocks s2 end1) = Some n -> live s2 (NB n) /\ n <> end1) ->
+    ((exists e, In e (out_edges s2 end1) /\ is_call e = true) -> ~ has_ret s2 end1) ->
+    Closed (edit_byte_interval s3 bi (boff (the_blk s3 b) + offset) length [] [b]).
+Proof. exact Closed_partial_deletion. Qed.
